@@ -145,7 +145,9 @@ class AsyncRun:
     def stop(self):
         task = self.loop.start(self.gw.stop())
         guard = 0
-        while self.loop.executor_jobs and guard < 5:
+        # executor jobs are completed only while stop() is still waiting: what is left when stop() has returned has not
+        # happened yet as far as the caller of stop() can tell (the file is read right after)
+        while not task.done() and self.loop.executor_jobs and guard < 5:
             self.loop.complete_executor(0)
             guard += 1
         if not task.done():
